@@ -18,3 +18,18 @@ Proof.
   unfold wf_digits. intros H. apply andb_prop in H as [N D]. destruct (uint_of_digits_defined d D) as [u E].
   unfold undec. destruct d; [discriminate|]. rewrite E. eexists; reflexivity.
 Qed.
+
+(* leading zeros do not change the value int() reads *)
+Require Import VMeaning.
+Lemma undec_zero_cons s : s <> [] -> undec (48 :: s) = undec s.
+Proof.
+  intros H. unfold undec. destruct s as [|c t]; [congruence|]. cbn [uint_of_digits].
+  destruct (uint_of_digits t) as [u|]; [|reflexivity].
+  change (48 =? 48) with true. cbn iota.
+  destruct (c =? 48), (c =? 49), (c =? 50), (c =? 51), (c =? 52), (c =? 53), (c =? 54), (c =? 55), (c =? 56), (c =? 57); reflexivity.
+Qed.
+Lemma num_leading_zeros n k : num (repeat 48 k ++ dec n) = n.
+Proof.
+  induction k as [|k IH]; cbn [repeat app]; [unfold num; now rewrite undec_dec|].
+  unfold num in *. rewrite undec_zero_cons; [exact IH|]. destruct k; cbn; [apply dec_nonnil|discriminate].
+Qed.
